@@ -31,9 +31,9 @@ func c16GenTree(r *vh.Rand, depth, maxDepth int) []c16Node {
 		key := c16Keys[perm[i]]
 		w := r.Intn(100)
 		switch {
-		case w < 28 && depth < maxDepth:
+		case w < 36 && depth < maxDepth:
 			nodes = append(nodes, c16Node{K: "graph", Key: key, Dag: r.Chance(25), Ch: c16GenTree(r, depth+1, maxDepth)})
-		case w < 42:
+		case w < 48:
 			nodes = append(nodes, c16Node{K: "pass", Key: key})
 		default:
 			prevLambda := i > 0 && nodes[i-1].K == "comp" && nodes[i-1].Impl == "lambda"
@@ -257,7 +257,7 @@ func c16Subset(r *vh.Rand, n int) []int {
 }
 
 func c16Gen(r *vh.Rand) *c16Case {
-	maxDepth := r.Range(1, 3)
+	maxDepth := []int{1, 2, 2, 3, 3}[r.Intn(5)]
 	g := c16GenTree(r, 1, maxDepth)
 	s := &c16GenState{r: r}
 	c16Targets(g, nil, &s.targets)
